@@ -7,7 +7,7 @@ import (
 	"sort"
 	"strings"
 
-	"golang.org/x/tools/go/ssa"
+	ssa "xvc/xssa"
 
 	"xvc/load"
 )
@@ -87,7 +87,77 @@ func NormCond(s string, sense bool) (string, bool) {
 		s = s[1:]
 		sense = !sense
 	}
+	return normRel(s, sense)
+}
+
+// normRel rewrites comparisons whose operands have a known small range into one
+// spelling, so that `len(x) > 0` / `len(x) != 0` / `len(x) >= 1`, `a.Cmp(b) == -1` /
+// `a.Cmp(b) < 0`, `bytes.Compare(a,b) == 0` / `bytes.Equal(a,b)` denote the same
+// condition. Applied to the canonical form of every branch and to every pattern.
+func normRel(s string, sense bool) (string, bool) {
+	l, op, r, ok := splitTopRel(s)
+	if !ok {
+		return s, sense
+	}
+	is3 := func(x string) bool {
+		return strings.HasPrefix(x, "big.(*Int).Cmp(") || strings.HasPrefix(x, "bytes.Compare(") || strings.HasPrefix(x, "strings.Compare(")
+	}
+	isLen := func(x string) bool { return strings.HasPrefix(x, "len(") }
+	switch op {
+	case "==":
+		for _, pr := range [][2]string{{l, r}, {r, l}} {
+			a, b := pr[0], pr[1]
+			if !is3(b) {
+				continue
+			}
+			switch a {
+			case "0":
+				if strings.HasPrefix(b, "bytes.Compare(") {
+					return "bytes.Equal(" + strings.TrimPrefix(b, "bytes.Compare("), sense
+				}
+			case "-1":
+				return "(" + b + " < 0)", sense
+			case "1":
+				return "(0 < " + b + ")", sense
+			}
+		}
+	case "<":
+		switch {
+		case l == "0" && isLen(r):
+			return "(0 == " + r + ")", !sense
+		case isLen(l) && r == "1":
+			return "(0 == " + l + ")", sense
+		case is3(l) && r == "1":
+			return "(0 < " + l + ")", !sense
+		case l == "-1" && is3(r):
+			return "(" + r + " < 0)", !sense
+		}
+	}
 	return s, sense
+}
+
+func splitTopRel(s string) (l, op, r string, ok bool) {
+	if !strings.HasPrefix(s, "(") || !strings.HasSuffix(s, ")") {
+		return
+	}
+	depth := 0
+	for i := 0; i < len(s)-3; i++ {
+		switch s[i] {
+		case '(', '{', '[':
+			depth++
+		case ')', '}', ']':
+			depth--
+		}
+		if depth == 1 {
+			if strings.HasPrefix(s[i:], " == ") {
+				return s[1:i], "==", s[i+4 : len(s)-1], true
+			}
+			if strings.HasPrefix(s[i:], " < ") {
+				return s[1:i], "<", s[i+3 : len(s)-1], true
+			}
+		}
+	}
+	return
 }
 
 // IfCanon returns the canonical condition of an If in normal form: negations,
@@ -137,15 +207,15 @@ func condCanon(v ssa.Value) (string, bool) {
 			if bo.Op == token.NEQ {
 				pos = !pos
 			}
-			return "(" + l + " == " + r + ")", pos
+			return normRel("("+l+" == "+r+")", pos)
 		case token.LSS:
-			return "(" + l + " < " + r + ")", pos
+			return normRel("("+l+" < "+r+")", pos)
 		case token.GTR:
-			return "(" + r + " < " + l + ")", pos
+			return normRel("("+r+" < "+l+")", pos)
 		case token.GEQ: // l >= r  ==  !(l < r)
-			return "(" + l + " < " + r + ")", !pos
+			return normRel("("+l+" < "+r+")", !pos)
 		case token.LEQ: // l <= r  ==  !(r < l)
-			return "(" + r + " < " + l + ")", !pos
+			return normRel("("+r+" < "+l+")", !pos)
 		}
 	}
 	s := CanonD(v, 9)
